@@ -769,6 +769,50 @@ fn outside_strings(src: &str) -> String {
     out
 }
 
+/// the same CEL text in another layout: mode 1 puts a line break wherever the text has a blank,
+/// mode 2 breaks the line after every comma and opening bracket and writes line breaks inside
+/// string literals raw instead of as `\n`. String literals are otherwise left alone.
+fn relayout(src: &str, mode: usize) -> String {
+    let cs: Vec<char> = src.chars().collect();
+    let mut out = String::new();
+    let mut in_str = false;
+    let mut i = 0;
+    while i < cs.len() {
+        let c = cs[i];
+        if in_str {
+            if c == '\\' && i + 1 < cs.len() {
+                if mode == 2 && cs[i + 1] == 'n' {
+                    out.push('\n');
+                } else {
+                    out.push(c);
+                    out.push(cs[i + 1]);
+                }
+                i += 2;
+                continue;
+            }
+            if c == '\'' {
+                in_str = false;
+            }
+            out.push(c);
+        } else {
+            match c {
+                '\'' => {
+                    in_str = true;
+                    out.push(c);
+                }
+                ' ' if mode == 1 => out.push('\n'),
+                ',' | '(' | '[' | '{' if mode == 2 => {
+                    out.push(c);
+                    out.push_str("\n ");
+                }
+                _ => out.push(c),
+            }
+        }
+        i += 1;
+    }
+    out
+}
+
 fn check_tree(acc: &mut Acc, x: &X, fam: &str) {
     let src = x.cel();
     let r = translate(&src);
@@ -799,6 +843,24 @@ fn check_tree(acc: &mut Acc, x: &X, fam: &str) {
             if !x.translatable() {
                 acc.violation(&format!("[{}] untranslatable-construct-produced-sql", site), case(&sql), "an unsupported error".into(), sql.clone());
                 return;
+            }
+            // the layout of the source is no part of the expression
+            for mode in 1..=2 {
+                let src2 = relayout(&src, mode);
+                if src2 == src {
+                    continue;
+                }
+                let r2 = translate(&src2);
+                acc.eval();
+                let same = matches!(&r2, Ok(Ok(s2)) if *s2 == sql);
+                if !same {
+                    acc.violation(
+                        &format!("[{}] translation-depends-on-the-layout ({})", site, if mode == 1 { "line breaks for blanks" } else { "line breaks after commas and brackets, raw line breaks in strings" }),
+                        json!({"cel": src2, "cel_on_one_line": src, "sql_of_the_one_line_form": sql}),
+                        sql.clone(),
+                        format!("{:?}", r2),
+                    );
+                }
             }
             let want = x.tree();
             match read_sql(&sql) {
@@ -918,7 +980,7 @@ fn sqlish_tree(k: usize, f: &'static str) -> X {
     }
 }
 
-const STRING_POSITIONS: usize = 9;
+const STRING_POSITIONS: usize = 12;
 fn string_position(k: usize, s: &str) -> X {
     let lit = || X::Str(s.to_string());
     match k {
@@ -930,6 +992,9 @@ fn string_position(k: usize, s: &str) -> X {
         5 => X::Map(vec![("k".to_string(), lit())]),
         6 => X::Call("int", vec![lit()]),
         7 => X::Index(Box::new(X::Id("m")), Box::new(lit())),
+        8 => X::Call("f", vec![lit(), X::Id("a")]),
+        9 => X::Call("f", vec![X::Id("a"), lit(), X::Id("b")]),
+        10 => X::Method(Box::new(X::Id("a")), "m", vec![lit(), X::Id("b")]),
         _ => X::Method(Box::new(X::Id("a")), "m", vec![lit(), X::Bin("+", Box::new(lit()), Box::new(lit()))]),
     }
 }
@@ -1005,7 +1070,7 @@ pub fn run(t: Tier) -> i32 {
     let mut rep = Report::new(ID, t, "exploration");
     let sp = Space::new(t);
     rep.rule = format!(
-        "trees: all {} source trees with <= 1 (thorough: 2) construct nodes over 8 leaves and the full alphabet plus all with exactly 2 (thorough: 3) nodes over a reduced alphabet (3 leaves, 5 operators, 2 casts); constructs: 14 binary operators, ! and - runs of 1 and 2, ?:, parentheses, lists and maps of 0..2 entries, free calls with 0..3 arguments, the 9 type constructors with 0, 1 and 2 arguments, method calls with 0..2 arguments on any receiver (so calls alone, in member chains, after an index, followed by a member), member and index access; plus match / bytes / f-string in 12 positions each (must be reported unsupported). strings: all {} strings of length <= {} over {{a ' \" \\ - ; LF * /}} in 9 positions (alone, operand, call argument, list element, map key, map value, cast argument, index, method arguments); field-names: 12 field and method names spelled like words of the emitted dialect (end, when, or, NOT, json, ...) in 5 positions. The SQL is read back by an independent tokenizer/parser for the emitted dialect with SQL precedences; the tree must equal the source tree (operators, operand order, grouping, function names, argument order, paths, casts), the multiset of string tokens must equal the CEL strings and member names, and no comment opener or semicolon may appear outside a string. Non-trivial = every case that compiles; distinct by source",
+        "trees: all {} source trees with <= 1 (thorough: 2) construct nodes over 8 leaves and the full alphabet plus all with exactly 2 (thorough: 3) nodes over a reduced alphabet (3 leaves, 5 operators, 2 casts); constructs: 14 binary operators, ! and - runs of 1 and 2, ?:, parentheses, lists and maps of 0..2 entries, free calls with 0..3 arguments, the 9 type constructors with 0, 1 and 2 arguments, method calls with 0..2 arguments on any receiver (so calls alone, in member chains, after an index, followed by a member), member and index access; plus match / bytes / f-string in 12 positions each (must be reported unsupported). strings: all {} strings of length <= {} over {{a ' \" \\ - ; LF * /}} in 12 positions (alone, operand, last / first / middle call argument, list element, map key, map value, cast argument, index, method arguments first and in a sum); field-names: 12 field and method names spelled like words of the emitted dialect (end, when, or, NOT, json, ...) in 5 positions. The SQL is read back by an independent tokenizer/parser for the emitted dialect with SQL precedences; the tree must equal the source tree (operators, operand order, grouping, function names, argument order, paths, casts), the multiset of string tokens must equal the CEL strings and member names, and no comment opener or semicolon may appear outside a string; every source is translated in two more layouts (a line break for every blank; a line break after every comma and opening bracket with the line breaks inside string literals written raw) and must give the identical SQL. Non-trivial = every case that compiles; distinct by source",
         sp.n_trees(),
         sp.strs.len(),
         t.pick(3, 4)
